@@ -205,19 +205,29 @@ pub fn fun(k: u8, a: L) -> L { L { v: a.v.wrapping_mul(5) ^ k.wrapping_mul(91), 
     return "\n".join(out) + "\n"
 
 
-def c08_prog(name, kind, nfields, ops, generic=False):
+def c08_prog(name, kind, nfields, ops, generic=False, bounds=None):
     """struct with nfields fields of type L deriving the given operator traits; one harness per (trait, form)"""
     fty = "T" if generic else "L"
     g = "<T>" if generic else ""
     XI = "X<L>" if generic else "X"
     names = (["zed", "alpha", "mid", "beta"] if kind == "named" else list("abcd"))[:nfields]
+    # bounds: explicit bound(..) arguments without `..` (non-generic programs: nothing needs a bound); they only concern the where-clause
+    # and must not change what the operators do.  entry: `Op(bound())`, shared: `.., bound()`, field: nested #[derive_ex(..)] on field 1
+    fattr = lambda i: ""
+    lst = ", ".join(ops)
+    if bounds == "entry":
+        lst = ", ".join("%s(bound())" % o for o in ops)
+    elif bounds == "shared":
+        lst = lst + ", bound()"
+    elif bounds == "field":
+        fattr = lambda i: ("#[derive_ex(%s)] " % ", ".join("%s(bound())" % o for o in ops)) if i == 1 else ""
     if kind == "unit":
         decl = "pub struct X;"
     elif kind == "named":
-        decl = "pub struct X%s { %s }" % (g, ", ".join("pub %s: %s" % (n, fty) for n in names))
+        decl = "pub struct X%s { %s }" % (g, ", ".join("%spub %s: %s" % (fattr(i), n, fty) for i, n in enumerate(names)))
     else:
-        decl = "pub struct X%s(%s);" % (g, ", ".join("pub " + fty for _ in names))
-    td = "#[derive_ex::derive_ex(%s)]\n#[derive(Clone, Copy, Debug, PartialEq)]\n%s\n" % (", ".join(ops), decl)
+        decl = "pub struct X%s(%s);" % (g, ", ".join(fattr(i) + "pub " + fty for i, _ in enumerate(names)))
+    td = "#[derive_ex::derive_ex(%s)]\n#[derive(Clone, Copy, Debug, PartialEq)]\n%s\n" % (lst, decl)
     acc = (lambda v, i: "%s.%s" % (v, names[i])) if kind == "named" else (lambda v, i: "%s.%d" % (v, i))
     if kind == "unit":
         mk = "impl Mk for X { fn mk<S: Src>(s: &mut S) -> Self { X } }\n"
@@ -262,7 +272,7 @@ def c08_prog(name, kind, nfields, ops, generic=False):
                 harnesses.append(h)
     text = td + "\n" + mk + "\n".join(wrappers) + "\n#[cfg(kani)]\npub mod proofs {\n    use super::*;\n%s\n}\n" % "\n".join(proofs)
     text += "pub fn replay(h: &str, b: &[u8]) -> (bool, String) {\n    let mut s = VecSrc { v: b.to_vec(), i: 0 };\n    match h {\n%s\n        _ => (true, String::from(\"unknown harness\")),\n    }\n}\n" % "\n".join(replays)
-    return Prog(name, text, harnesses, {"describe": "%s struct, %d fields%s, ops=%s" % (kind, nfields, " generic" if generic else "", "+".join(ops))})
+    return Prog(name, text, harnesses, {"describe": "%s struct, %d fields%s%s, ops=%s" % (kind, nfields, " generic" if generic else "", (" bound()@" + bounds) if bounds else "", "+".join(ops))})
 
 
 # ------------------------------------------------------------------------------------------------ C18
@@ -707,12 +717,18 @@ C10_TYPES = ["u8", "i32", "f32", "bool", "&'static str", "Option<u8>", "W<u8>", 
 C10_SPECS = ["{:?}", "{:#?}", "{:6?}", "{:<6?}", "{:+?}", "{:.1?}", "{:x?}", "{:#06x?}", "{:^9?}", "{:>08?}", "{:#X?}", "{:+.2?}", "{:-^12.3?}", "{:#10?}"]
 
 
-def c10_prog(name, rng, entry):
-    is_enum = rng.random() < 0.5
+C10_HOSTILE_NAMES = ["_f", "f", "__f", "fmt", "_fmt", "state", "_0", "_self", "other", "_d", "d", "_s", "__self", "_b", "b"]
+
+
+def c10_prog(name, rng, entry, first_name=None):
+    """first_name: force a named shape whose first field carries that name (systematic hostile-name programs)"""
+    is_enum = rng.random() < 0.5 or bool(first_name)      # bindings `_<field>` only exist in enum arms
     generic = rng.random() < 0.25
     def mkvariant(vn, allow_unit=True):
         kind = rng.choice((["unit"] if allow_unit else []) + ["tuple", "named", "tuple", "named"])
-        n = 0 if kind == "unit" else rng.randint(0, 4)
+        if first_name and vn in ("A", "X"):
+            kind = "named"
+        n = 0 if kind == "unit" else rng.randint(1 if first_name else 0, 4)
         fs = [[rng.choice(C10_TYPES), rng.random() < 0.35] for _ in range(n)]      # [type, ignored]
         tr = None
         if n and rng.random() < 0.3:
@@ -722,6 +738,11 @@ def c10_prog(name, rng, entry):
         return (vn, kind, fs, tr)
     vs = [mkvariant("ABCD"[i]) for i in range(rng.randint(1, 4))] if is_enum else [mkvariant("X")]
     names = "abcd"
+    if rng.random() < 0.35:
+        # field names that collide with plausible generated locals once prefixed / as written (formatter `f`, bindings `_<field>`)
+        names = rng.sample(C10_HOSTILE_NAMES, 4)
+    if first_name:
+        names = [first_name] + [x for x in rng.sample(C10_HOSTILE_NAMES, 4) if x != first_name][:3]
     def tdecl(t):
         return t.replace("u8", "T") if generic and "u8" in t else t
     used_t = generic and any("u8" in f[0] for v in vs for f in v[2])
